@@ -442,3 +442,16 @@ mod tests {
         assert!(counts.record_data_frame(0).is_err());
     }
 }
+
+#[cfg(feature = "verif")]
+impl Counts {
+    pub(super) fn verif_fill(&self, s: &mut crate::verif::VerifStats) {
+        s.num_send_streams = self.num_send_streams;
+        s.num_recv_streams = self.num_recv_streams;
+        s.max_send_streams = self.max_send_streams;
+        s.max_recv_streams = self.max_recv_streams;
+        s.num_local_reset_streams = self.num_local_reset_streams;
+        s.num_remote_reset_streams = self.num_remote_reset_streams;
+        s.num_local_error_reset_streams = self.num_local_error_reset_streams;
+    }
+}
